@@ -1,8 +1,9 @@
 """C02 - clean close and reopen preserves the exact map contents."""
 from .model import short, const_val
 from .roles import Roles, role_effects, io_effects, WRITE_ATOMS
-from .util import where, origins, calls_to, region_dominated, reachable_fns, field_reads
+from .util import where, origins, calls_to, region_dominated, reachable_fns, field_reads, leaf_origins
 from .c13 import zero_split
+from .fields import fq
 from . import k5
 
 EXPLANATION = (
@@ -61,7 +62,7 @@ def _check_own(ctx):
         ctx.check(not w, "init-only-on-empty", kind + ":reopen-writes-nothing", "opening an existing %s file can modify it (%s)" % (kind, sorted(w)), where=where(fn, nonzero))
         ctx.check(eff.must_from(fn, zero, r_init) is True, "init-only-on-empty", kind + ":init-must-on-zero-arm", "a new %s file can be returned without a header" % kind, where=where(fn, zero))
     ctx.floor("open-never-destroys", "OpenOptions flags checked", n_opts, 12)
-    reads = [(f, b) for f, b, pl in field_reads(prog, "FileDbParams.buckets_size") if not f.from_expansion]
+    reads = [(f, b) for f, b, pl in field_reads(prog, fq(prog, "PARAMS.buckets_size")) if not f.from_expansion]
     hopen = R.need("HTX_OPEN")
     sp = zero_split(prog, R, hopen)
     if sp:
@@ -95,6 +96,89 @@ def _check_own(ctx):
         ctx.check(not w, "drop-not-skipped", "lib-drop:" + short(f.impl_self or "?"), "a Drop impl of the lib modifies files (%s)" % sorted(w), where=where(f))
     # (4) placement
     check_seedless(ctx, prog)
+    # (5) the open-time header checks only look at bytes no update ever writes
+    check_header_check_window(ctx, prog, R)
+
+
+RWIDTH = {"read_u64_le": 8, "read_u32_le": 4, "read_u16_le": 2, "read_u8": 1}
+
+
+def _seek_const(prog, fn, b, t):
+    """constant byte offset of a seek_from_start(Offset::new(<const expr>)) call, else None"""
+    from . import k7
+    cn = k7.Canon(prog, fn)
+    c = cn.op(t["args"][1], b)
+    for _ in range(4):
+        if c[0] == "call" and c[1].endswith("::new") and len(c[2]) == 1:
+            c = c[2][0]
+    return c[1] if c[0] == "c" else None
+
+
+def header_check_reads(prog, fn, seek_start):
+    """[(block, start, width)] of the reads of a header check in dominance order (start None if not a constant)."""
+    evs = []
+    for b, t in fn.calls():
+        if fn.is_cleanup(b) or b in fn.error_blocks():
+            continue
+        cal = t.get("callee") or ""
+        nm = cal.rsplit("::", 1)[-1]
+        tg = prog.targets(t, fn)[0]
+        if any(x.id == seek_start.id for x in tg):
+            evs.append((b, "seek", _seek_const(prog, fn, b, t)))
+        elif any(x.crate == "abyssiniandb" for x in tg) and not (nm in RWIDTH or nm in ("read_exact", "read_exact_small")):
+            evs.append((b, "seek", None))      # any other lib call may move the cursor
+        elif nm in RWIDTH:
+            evs.append((b, "read", RWIDTH[nm]))
+        elif nm in ("read_exact", "read_exact_small"):
+            w = None
+            for o in leaf_origins(prog, fn, t["args"][1], at=b, terminal_only=True):
+                ty = fn.local_ty(o.data) if o.kind in ("local", "param") else (fn.local_ty(o.data["lhs_local"]) if isinstance(o.data, dict) and "lhs_local" in o.data else "")
+                if o.kind == "agg" and o.data.get("agg") == "array":
+                    w = len(o.data["ops"])
+                elif o.kind == "repeat":
+                    w = o.data.get("n")
+                elif ty.startswith("[u8; "):
+                    w = int(ty[5:-1])
+            evs.append((b, "read", w))
+        elif nm.startswith("read"):
+            evs.append((b, "read", None))
+    evs.sort(key=lambda x: len(fn.dominators().get(x[0], ())))
+    out, pos = [], None
+    for b, kind, v in evs:
+        if kind == "seek":
+            pos = v
+        else:
+            out.append((b, pos, v))
+            pos = pos + v if (pos is not None and v is not None) else None
+    return out
+
+
+def check_header_check_window(ctx, prog, R, rule="header-check-immutable-window"):
+    """A check run on every reopen must not depend on bytes that updates write: it reads only inside [0, W), W the lowest
+    header offset written after initialisation (record files: the first free-list head; table file: the item count)."""
+    from . import tables
+    from .roles import M_KEY, M_VAL
+    wins = {}
+    for kind, mod in (("key", M_KEY), ("val", M_VAL)):
+        t = tables.table(prog, mod, "REC_SIZE_FREE_OFFSET")
+        wins[kind] = min(t) if t else None
+    cw = R.need("CNT_WRITE")
+    seek_start = R.need("SEEK_START")
+    sk = [(b, t) for b, t in cw.calls() if any(x.id == seek_start.id for x in prog.targets(t, cw)[0])]
+    wins["htx"] = _seek_const(prog, cw, sk[0][0], sk[0][1]) if len(sk) == 1 else None
+    for kind, role in (("key", "HDR_CHECK_KEY"), ("val", "HDR_CHECK_VAL"), ("htx", "HDR_CHECK_HTX")):
+        fn = R.need(role)
+        ctx.touch(fn)
+        W = wins[kind]
+        if not ctx.check(isinstance(W, int) and W >= 16, rule, kind + ":window", "cannot determine the first mutable header offset of the %s file" % kind, where=where(fn)):
+            continue
+        rs = header_check_reads(prog, fn, seek_start)
+        ctx.floor(rule, kind + " header-check reads", len(rs), 3)
+        for i, (b, pos, w) in enumerate(rs):
+            ok = pos is not None and w is not None and 0 <= pos and pos + w <= W
+            ctx.check(ok, rule, "%s:read#%d" % (kind, i),
+                      "the %s header check reads bytes [%s, %s) but updates write the header from offset %d on: reopening can be refused (or pass) depending on the history"
+                      % (kind, pos, (pos + w) if (pos is not None and w is not None) else "?", W), where=where(fn, b))
 
 
 def check_seedless(ctx, prog, rule="placement-process-independent"):
@@ -135,3 +219,5 @@ def check(ctx):
     import_rules(ctx, "c07", {"stored-count-wins"})
     # the persisted item count is what a reopened map reports as len() and what bounds its iterators
     import_rules(ctx, "c05", {"count-writers", "count-step", "count-arm"})
+    # a reopen finds the files the map was created with: one file per (map name, kind)
+    import_rules(ctx, "c11", {"file-per-name-and-kind"})
